@@ -1,6 +1,6 @@
 ----------------------------- MODULE P2Bin_Trace -----------------------------
 (* (V) Judging observed runs of the real p2bin.  The harness writes one JSON line per run              *)
-(*        {"id": n, "c": case, "obs": {"rc":..,"bytes":[..],"warn":..}}                                *)
+(*        {"id": n, "c": case, "obs": {"rc":..,"bytes":[..],"warn":..}, "known": [deviation names]}    *)
 (* (records tokenised by the independent code-file reader, options as given on the command line) and   *)
 (* TLC evaluates P2Bin!Verdict on each: one step per case, one OUT line per case.                      *)
 EXTENDS P2Bin, Json, IOUtils
@@ -9,7 +9,7 @@ VARIABLE l
 Cases == ndJsonDeserialize(IOEnv.CASES)
 TInit == l = 1
 TNext == /\ l <= Len(Cases)
-         /\ LET v == Verdict(Cases[l].c, Cases[l].obs)
+         /\ LET v == Verdict(Cases[l].c, Cases[l].obs, Range(Cases[l].known))
                 \* one output the specification allows, shown when the observation is rejected
                 model == IF v.ok THEN [rc |-> 0, bytes |-> <<>>, warn |-> FALSE] ELSE Run({}, Cases[l].c)
             IN PrintT(<<"OUT", ToJson([id |-> Cases[l].id, model |-> model] @@ v)>>)
